@@ -64,6 +64,8 @@ func sErr(err error) string {
 		return "err:missingRef"
 	case errors.Is(err, file.ErrDuplicateName):
 		return "err:duplicateName"
+	case errors.Is(err, file.ErrOverwriteDisallowed):
+		return "err:overwrite"
 	}
 	return "err:verify" // every other failure of a push in these histories is a content mismatch / reader error
 }
@@ -98,9 +100,10 @@ func runC06s(seed int64, tier string, sc *Script) map[string]any {
 	}
 	ops := 0
 	for ci := 0; ci < cases; ci++ {
-		kind := []string{"mem", "file", "mem", "filecas"}[ci%4]
+		kind := []string{"mem", "file", "mem", "filecas", "mem", "filenov"}[ci%6]
 		forceCAS := kind == "filecas"
-		if forceCAS {
+		noOverwrite := kind == "filenov"
+		if forceCAS || noOverwrite {
 			kind = "file"
 		}
 		// universe: blobs (some sharing bytes under another media type for the memory store),
@@ -155,10 +158,12 @@ func runC06s(seed int64, tier string, sc *Script) map[string]any {
 		for _, n := range nodes {
 			byKey[keyOf(n.desc)] = n.id
 		}
-		sc.Case("store-history " + kind + map[bool]string{true: " ForceCAS"}[forceCAS])
+		sc.Case("store-history " + kind + map[bool]string{true: " ForceCAS"}[forceCAS] + map[bool]string{true: " DisableOverwrite"}[noOverwrite])
 		sc.NonTrivial()
 		if forceCAS {
 			sc.Def("s new kind=%s cas=1", kind)
+		} else if noOverwrite {
+			sc.Def("s new kind=%s nov=1", kind)
 		} else {
 			sc.Def("s new kind=%s", kind)
 		}
@@ -187,11 +192,20 @@ func runC06s(seed int64, tier string, sc *Script) map[string]any {
 		if kind == "mem" {
 			st = memory.New()
 		} else {
+			if noOverwrite {
+				// files that sit in the working directory before the store is opened
+				os.MkdirAll(dir, 0o755)
+				for _, k := range []int{6, 7} {
+					os.WriteFile(filepath.Join(dir, sName(k)), []byte("here before"), 0o644)
+					sc.Def("s disk name=%d", k)
+				}
+			}
 			fstore, err = file.New(dir)
 			if err != nil {
 				panic(err)
 			}
 			fstore.ForceCAS = forceCAS
+			fstore.DisableOverwrite = noOverwrite
 			st = fstore
 		}
 		withName := func(d ocispec.Descriptor, name int) ocispec.Descriptor {
@@ -212,6 +226,9 @@ func runC06s(seed int64, tier string, sc *Script) map[string]any {
 			}
 			if rng.Intn(4) == 0 {
 				return -1
+			}
+			if noOverwrite {
+				return rng.Intn(8) // 6 and 7 are taken on disk
 			}
 			return rng.Intn(6)
 		}
